@@ -625,6 +625,47 @@ example :
     ValidDate ⟨2023, 11, 1⟩ := by
   refine ⟨by decide +kernel, by unfold ValidDate; decide⟩
 
+/-! ### the years the summaries are built for -/
+
+theorem sumR_append (a b : List Rat) : sumR (a ++ b) = sumR a + sumR b := by
+  induction a with
+  | nil => simp [sumR_nil]
+  | cons x a ih => simp only [List.cons_append, sumR_cons, ih]; ring
+
+theorem sumTo_eq_sumR_range (f : Nat → Rat) (k : Nat) : sumTo f k = sumR ((List.range k).map f) := by
+  induction k with
+  | zero => rfl
+  | succ k ih => rw [sumTo, ih, List.range_succ, List.map_append, sumR_append]; simp [sumR_cons, sumR_nil]
+
+/-- the years of a period are exactly the calendar years from its first to its last day -/
+theorem mem_yearsOf (ps pe : Date) (h : ps.y ≤ pe.y) (y : Nat) : y ∈ yearsOf ps pe ↔ ps.y ≤ y ∧ y ≤ pe.y := by
+  simp only [yearsOf, List.mem_map, List.mem_range]
+  constructor
+  · rintro ⟨i, hi, rfl⟩; omega
+  · intro hy; exact ⟨y - ps.y, by omega, by omega⟩
+
+/-- over exactly the years of the period (`calc_simulation_years`) the yearly cells of a frame add up
+to the total of its values, for every frame whose records lie inside the period (closed or still
+open at the end) -/
+theorem C14_years_complete (rows : List (Int × Option Date × Option Date)) (ps pe m : Date)
+    (hm : latestDate rows = some m) (hmy : m.y ≤ pe.y)
+    (h : ∀ r ∈ rows, ∃ st, r.2.1 = some st ∧ ValidDate st ∧ ps.y ≤ st.y ∧ st.y ≤ m.y ∧
+      ∀ en, r.2.2 = some en → st.y ≤ en.y ∧ en.y ≤ pe.y ∧ st.ord ≤ en.ord) :
+    sumR ((yearsOf ps pe).map (yearlyShare rows)) = sumI (rows.map (·.1)) := by
+  rw [← C14_yearly rows ps.y pe.y m hm hmy h, sumTo_eq_sumR_range, yearsOf, List.map_map]
+  rfl
+
+/-- with the survey planner's whole-year list the last calendar year of a period that ends earlier
+in the calendar than it starts is missing: 10 kg emitted in January 2018 of a run 2017-11-01 ..
+2018-02-28 appear in no yearly cell -/
+theorem planner_years_lose_the_last_year :
+    ∃ (rows : List (Int × Option Date × Option Date)) (ps pe : Date),
+      yearsOf ps pe = [2017, 2018] ∧ plannerYears ps pe = [2017] ∧
+      sumR ((yearsOf ps pe).map (yearlyShare rows)) = 10 ∧
+      sumR ((plannerYears ps pe).map (yearlyShare rows)) = 0 := by
+  refine ⟨[(10, some ⟨2018, 1, 5⟩, some ⟨2018, 1, 20⟩)], ⟨2017, 11, 1⟩, ⟨2018, 2, 28⟩, ?_, ?_, ?_, ?_⟩ <;>
+    decide +kernel
+
 /-! ### non-vacuity -/
 
 /-- 731 kg over 2023-07-01 .. 2025-06-30 (through the leap year 2024): 184 + 366 + 181 -/
